@@ -546,6 +546,48 @@ def install(reg):
                 return interp.ctx.fresh(f"array_{_n}", "real")
             bound_m._sym_ok = True
             return bound_m
+        if name == "type" and not base.pylist and getattr(base, "as_type", None) is torch.Tensor:
+            def bound_t(dtype=None, _b=base, **kw):
+                # Tensor.type(dtype): a cast COPY (real -> integer dtype truncates toward zero; every other cast keeps the values, A1)
+                if dtype is None:
+                    raise OutOfSubset("Tensor.type() without a dtype on a symbolic tensor")
+                return _like(_b.astype(dtype), _b)
+            bound_t._sym_ok = True
+            return bound_t
+        if name == "numpy" and not base.pylist and getattr(base, "as_type", None) is torch.Tensor:
+            def bound_n(_b=base, **kw):
+                # Tensor.numpy(): an ndarray VIEW of the same memory (a write through it is a write into the tensor)
+                srcfn = V._snap_fn(_b, view=True)
+                r = SymArr(tuple(_b.shape), lambda *i: srcfn(*i), _b.kind, False, base=_b.base)
+                r._guards = tuple(getattr(_b, "_guards", ())) + (srcfn,)
+                r.as_type = np.ndarray
+                return r
+            bound_n._sym_ok = True
+            return bound_n
+        if name == "movedim" and not base.pylist:
+            def bound_md(source, destination, _b=base):
+                # Tensor.movedim(source, destination) for single integer axes: a VIEW with that axis moved, the others keep their order
+                if isinstance(source, (Sym, tuple, list)) or isinstance(destination, (Sym, tuple, list)):
+                    raise OutOfSubset("movedim with symbolic / several axes")
+                nd = _b.ndim
+                if not (-nd <= source < nd and -nd <= destination < nd):
+                    raise RaiseSig(IndexError("movedim: dimension out of range"))
+                src_ax, dst_ax = source % nd, destination % nd
+                order = [a for a in range(nd) if a != src_ax]
+                order.insert(dst_ax, src_ax)  # order[new axis] = old axis
+                srcfn = V._snap_fn(_b, view=True)
+
+                def fn(*idx, _order=tuple(order)):
+                    old = [None] * nd
+                    for new_ax, old_ax in enumerate(_order):
+                        old[old_ax] = idx[new_ax]
+                    return srcfn(*old)
+
+                r = SymArr(tuple(_b.shape[a] for a in order), fn, _b.kind, False, base=_b.base)
+                r._guards = tuple(getattr(_b, "_guards", ())) + (srcfn,)
+                return _like(r, _b)
+            bound_md._sym_ok = True
+            return bound_md
         if name == "expand" and not base.pylist:
             def bound_e(*shape, _b=base):
                 return expand(_b, shape)
@@ -556,6 +598,19 @@ def install(reg):
         return NotImplemented
 
     reg.attr_models[SymArr] = arr_attr
+
+    # isinstance of an array stand-in that carries a library tag (`as_type`): decided by the tag alone (a torch tensor is not an ndarray)
+    prev_isinstance = getattr(reg, "isinstance_model", None)
+
+    def tagged_isinstance(interp, x, t):
+        if isinstance(x, SymArr) and not x.pylist and getattr(x, "as_type", None) in (torch.Tensor, np.ndarray):
+            ts = t if isinstance(t, tuple) else (t,)
+            return any(isinstance(k, type) and issubclass(x.as_type, k) for k in ts)
+        if prev_isinstance is not None:
+            return prev_isinstance(interp, x, t)
+        return NotImplemented
+
+    reg.isinstance_model = tagged_isinstance
 
     # ---------------------------------------------------------------- gather / scatter with an index array
     prev_get = reg.getitem_models.get(SymArr)
@@ -613,6 +668,22 @@ def install(reg):
             r.shape = tuple(shape)
 
     reg.getitem_models[SymArr] = arr_getitem
+
+    # 0-dim reduction result (numpy scalar / 0-dim tensor) indexed with new axes only: x[..., None] / x[None] -> shape (1,)*k
+    prev_sget = reg.getitem_models.get(Sym)
+
+    def scalar_getitem(interp, base, key):
+        keys = key if isinstance(key, tuple) else (key,)
+        if base.is_real and keys and all(k is None or k is Ellipsis for k in keys) and sum(1 for k in keys if k is Ellipsis) <= 1:
+            k = sum(1 for q in keys if q is None)
+            if k == 0:
+                return base
+            return SymArr((1,) * k, lambda *i, _v=base: _v, "real")
+        if prev_sget is not None:
+            return prev_sget(interp, base, key)
+        return NotImplemented
+
+    reg.getitem_models[Sym] = scalar_getitem
 
     prev_set = reg.setitem_models.get(SymArr)
 
@@ -672,6 +743,30 @@ def install(reg):
         return _like(r, a if isinstance(a, SymArr) else b)
 
     reg.binop_models[(SymArr, operator.mod)] = arr_mod
+
+    # ---------------------------------------------------------------- matrix @ vector (and vector @ vector): sum over the shared axis
+    def arr_matmul(interp, op, a, b):
+        if not (isinstance(a, SymArr) and isinstance(b, SymArr)) or a.pylist or b.pylist or b.ndim != 1 or a.ndim not in (1, 2):
+            return NotImplemented
+        if not _same_dim(a.shape[-1], b.shape[0]):
+            raise RaiseSig(RuntimeError("matmul: size mismatch of the contracted axis"))
+        af, bf, n = a.fn, b.fn, a.shape[-1]
+        ln = V._dim_lit(n)
+
+        def dot(row):
+            if ln is not None and ln <= 4:
+                tot = None
+                for j in range(ln):
+                    term = S(af(*row, z3.IntVal(j))) * S(bf(z3.IntVal(j)))
+                    tot = term if tot is None else tot + term
+                return tot if tot is not None else 0.0
+            return sigma(n, lambda j: S(af(*row, j)) * S(bf(j)))
+
+        if a.ndim == 1:
+            return S(dot(()))
+        return _like(SymArr((a.shape[0],), lambda p: dot((p,)), "real"), a)
+
+    reg.binop_models[(SymArr, operator.matmul)] = arr_matmul
 
     # ---------------------------------------------------------------- constructors
     def _shape_args(a):
@@ -828,6 +923,10 @@ def install(reg):
         return stack(xs, dim, torch.Tensor)
 
     M[torch.stack] = m_t_stack
+    if torch.cat in M:
+        for alias in (getattr(torch, "concatenate", None), getattr(torch, "concat", None)):
+            if alias is not None and alias not in M:
+                M[alias] = M[torch.cat]  # documented aliases of torch.cat
 
     def m_np_isfinite(interp, x, **kw):
         if isinstance(x, SymArr):
@@ -837,6 +936,33 @@ def install(reg):
         return interp.native(np.isfinite, x, **kw)
 
     M[np.isfinite] = m_np_isfinite
+
+    def m_np_array_equal(interp, a, b, **kw):
+        """np.array_equal of two SHAPE tuples (ints / symbolic ints): same length and equal entries."""
+        if not contains_sym((a, b)):
+            return interp.native(np.array_equal, a, b, **kw)
+        if not all(isinstance(x, (tuple, list, torch.Size)) for x in (a, b)):
+            raise OutOfSubset("np.array_equal of symbolic arrays")
+        if len(a) != len(b):
+            return False
+        return Sym(z3.And(*[lift(x) == lift(y) for x, y in zip(a, b)])) if len(a) else True
+
+    M[np.array_equal] = m_np_array_equal
+
+    def _array_of_arrays(prev, real):
+        def h(interp, x, *a, **kw):
+            # np.array / np.asarray of a tuple / list of equal-shape arrays: the arrays stacked along a new leading axis
+            if isinstance(x, (tuple, list)) and len(x) >= 1 and all(isinstance(e, SymArr) and not e.pylist and e.ndim >= 1 for e in x):
+                if not all(e.ndim == x[0].ndim and all(_same_dim(p, q) for p, q in zip(e.shape, x[0].shape)) for e in x[1:]):
+                    raise OutOfSubset("np.array of arrays whose shapes are not known to be equal")
+                return stack(list(x), 0, np.ndarray)
+            if prev is not None:
+                return prev(interp, x, *a, **kw)
+            return interp.native(real, x, *a, **kw)
+        return h
+
+    for _f in (np.array, np.asarray):
+        M[_f] = _array_of_arrays(M.get(_f), _f)
 
     def m_t_sum(interp, x, dim=None, keepdim=False, **kw):
         if "axis" in kw and dim is None:
